@@ -172,6 +172,18 @@ fn exercise<B: Backend>(w: &World<B>, parser: &str, text: &str) -> Vec<Value> {
                     if let Some(t) = s.run("parse", || KeyText::<B::V, $K>::from_str(text)) {
                         s.run_inf("to_string", || t.to_string());
                         let raw = t.as_raw_bytes().to_vec();
+                        // the parsed text against texts of other lengths, both ways round: equality, order, hash
+                        s.run_inf("compare", || {
+                            use std::hash::{Hash, Hasher};
+                            let mut n = 0;
+                            for len in [0usize, 1, 32, 33, 64, 300] {
+                                let o = KeyText::<B::V, $K>::from_raw_bytes(&vec![raw.first().copied().unwrap_or(7); len]);
+                                let mut h = std::collections::hash_map::DefaultHasher::new();
+                                o.hash(&mut h);
+                                n += (t == o) as u64 + (o == t) as u64 + (t < o) as u64 + (o.cmp(&t) as i8 as u64 & 1) + (h.finish() & 1);
+                            }
+                            n
+                        });
                         $(
                             if let Some(k) = s.run(concat!("try_into:", $kinds), || key_from_bytes::<B::V, $KK>(&raw)) {
                                 use_key::<B, $KK>(&mut s, w, $kinds, k);
